@@ -448,6 +448,12 @@ def rule_unspendable(ctx):
         txl = c03.tx_loop(ctx, f)
         _in, txv = c03.input_loop(ctx, f, txl)
         ol = c03.output_loop(ctx, f, txl, txv)
+        ctx.check(c03.output_positions_ok(f, ol, txv), 'C01.UNSPENDABLE', ctx.key(f, ol, 'index is the output position'),
+                  'the output loop enumerates the unfiltered output list: the index written into the UTXO key is the real output index',
+                  f'the output loop iterates `{norm(c03.expand_locals(f, ol.iter))[:90]}`: with a filtered or re-ordered iterable the '
+                  'loop index is no longer the output\'s position in the transaction, so outpoints are recorded under wrong indices',
+                  loc=ctx.loc(f, ol))
+        n += 1
         first = ol.body[0] if ol.body else None
         okk = isinstance(first, ast.If) and isinstance(first.test, ast.Call) and norm(first.test.func) == pv and \
             norm(first.test.args[0]).endswith('.pk_script') and len(first.body) == 1 and isinstance(first.body[0], ast.Continue)
@@ -576,3 +582,5 @@ def run(ctx):
         return c04.rule_atomic(ctx, ig, cps[0], 'C01')
     ctx.rule('C01.ATOMIC', atomic, 6)
     ctx.rule('C01.FSMETA', lambda: c04.rule_file_offsets(ctx, 'C01'), 5)
+    from .flushall import rule_flushall
+    ctx.rule('C01.FLUSHALL', lambda: rule_flushall(ctx, 'C01'), 3)
